@@ -338,3 +338,8 @@ for pid, items in (("C01", [(WEE, "c_set_key_then_encrypt128_spec"), (WEE, "c_se
                    ("C03", [(WEE, "c_set_key_then_decrypt128_spec"), (WEE, "c_set_key_then_decrypt64_spec")])):
     if pid in PLAN:
         add_imports(pid, WHI + ["ModelCipher", "ProofsSkinny", "WholeProc", "WholeCtr", "WholeCtrModel", "WholeKeyTweak", "WholeCompose", "WholeEndToEnd"]); PLAN[pid] += items
+
+# MANTIS capstone (WholeEndToEndM.v)
+for pid, items in (("C02", [("WholeEndToEndM.v", "c_mantis_set_key_then_crypt_spec")]),):
+    if pid in PLAN:
+        add_imports(pid, WHI + ["SpecMantis", "ModelCipher", "ProofsMantis", "WholeMantis", "WholeMantisKey", "WholeProc", "WholeCtr", "WholeCtrModel", "WholeCompose", "WholeComposeM", "WholeEndToEndM"]); PLAN[pid] += items
